@@ -108,7 +108,14 @@ impl FeelNumber {
   }
   ///
   pub fn even(&self) -> bool {
-    dec_is_zero(&dec_remainder(&self.0, &DEC_TWO))
+    let remainder = dec_remainder(&self.0, &DEC_TWO);
+    if dec_is_finite(&remainder) {
+      dec_is_zero(&remainder)
+    } else {
+      // the quotient has more digits than the precision, so the number is
+      // an integer with a positive exponent, i.e. a multiple of ten
+      dec_is_finite(&self.0)
+    }
   }
   ///
   pub fn exp(&self) -> Self {
@@ -325,6 +332,16 @@ impl std::ops::Rem<FeelNumber> for FeelNumber {
   type Output = Self;
   ///
   fn rem(self, rhs: Self) -> Self::Output {
+    // the remainder of the truncated division is exact and takes the sign of the dividend,
+    // adding the divisor when the signs differ gives `self - rhs * floor(self / rhs)` without
+    // the rounding errors of the intermediate quotient and product
+    let remainder = dec_remainder(&self.0, &rhs.0);
+    if dec_is_finite(&remainder) {
+      if !dec_is_zero(&remainder) && dec_is_negative(&remainder) != dec_is_negative(&rhs.0) {
+        return Self(dec_reduce(&dec_add(&remainder, &rhs.0)));
+      }
+      return Self(dec_reduce(&remainder));
+    }
     Self(dec_reduce(&dec_subtract(
       &self.0,
       &dec_multiply(&rhs.0, &dec_floor(&dec_divide(&self.0, &rhs.0))),
@@ -343,7 +360,7 @@ impl std::ops::Neg for FeelNumber {
 impl std::ops::RemAssign<FeelNumber> for FeelNumber {
   ///
   fn rem_assign(&mut self, rhs: Self) {
-    self.0 = dec_reduce(&dec_subtract(&self.0, &dec_multiply(&rhs.0, &dec_floor(&dec_divide(&self.0, &rhs.0)))));
+    self.0 = (*self % rhs).0;
   }
 }
 
